@@ -99,7 +99,7 @@ func parseRaceReports(txt string) []raceReport {
 				if k := strings.Index(file, " +0x"); k > 0 {
 					file = file[:k]
 				}
-				a.site = strings.TrimPrefix(file, "/repo/")
+				a.site = strings.TrimPrefix(file, strings.TrimSuffix(repoDir, "/")+"/")
 				src := a.site
 				if k := strings.LastIndex(src, ":"); k > 0 {
 					src = src[:k]
